@@ -515,6 +515,47 @@ func runC01(c *Ctx) {
 			key := "wire-id@" + funcName(wq)
 			buf := pc.Call.Args[1]
 			off := int64(0)
+			// merged form: one rewrite behind the framing branch, `PutUint16((*payload)[idOff:], id)` with payload and
+			// idOff chosen together (two phis of one block): checked edge by edge
+			if sl, ok := buf.(*ssa.Slice); ok {
+				if offPhi, isPhi := sl.Low.(*ssa.Phi); isPhi {
+					if ld, isLd := sl.X.(*ssa.UnOp); isLd {
+						if bufPhi, isBP := ld.X.(*ssa.Phi); isBP && bufPhi.Block() == offPhi.Block() && len(bufPhi.Edges) == len(offPhi.Edges) {
+							allOK := pc.Call.Args[2] == ssa.Value(idParam)
+							for i := range bufPhi.Edges {
+								e := bufPhi.Edges[i]
+								if ex, ok := e.(*ssa.Extract); ok {
+									e = ex.Tuple
+								}
+								cc, ok := e.(*ssa.Call)
+								o, isC := constInt(offPhi.Edges[i])
+								if !ok || !isC {
+									allOK = false
+									continue
+								}
+								switch callName(cc) {
+								case relTransport + ".copyMsgWithLenHdr":
+									if o != 2 {
+										allOK = false
+									}
+								case relTransport + ".copyMsg":
+									if o != 0 {
+										allOK = false
+									}
+								default:
+									allOK = false
+								}
+							}
+							n += len(bufPhi.Edges) - 1
+							for i := 1; i < len(bufPhi.Edges); i++ {
+								c.check(allOK, fmt.Sprintf("%s#%d", key, i), instrPos(in), "assigned id written at the id offset chosen together with the framing (one rewrite for both framings)", "the merged id rewrite does not put the assigned id at the id offset of each framing")
+							}
+							c.check(allOK, key, instrPos(in), "assigned id written at the id offset chosen together with the framing", "the merged id rewrite does not put the assigned id at offset 2 of the length-prefixed copy and offset 0 of the plain copy: the wire id differs from the registered id")
+							return
+						}
+					}
+				}
+			}
 			if sl, ok := buf.(*ssa.Slice); ok {
 				if sl.Low != nil {
 					off, _ = constInt(sl.Low)
